@@ -343,9 +343,12 @@ func cpCase(t *tr.W, r *rand.Rand, scenario string) {
 	if scenario == "liars-apart" {
 		nInt = 4 + r.Intn(2)
 	}
+	if scenario == "short-list" {
+		nInt = 3
+	}
 	l0 := nInt*interval + r.Intn(300)
 	np := 1 + r.Intn(4)
-	if scenario == "liars-apart" {
+	if scenario == "liars-apart" || scenario == "short-list" {
 		np = 3 + r.Intn(2)
 	}
 	disc := r.Intn(2) == 0
@@ -399,6 +402,62 @@ func cpCase(t *tr.W, r *rand.Rand, scenario string) {
 			}
 		}
 		t.Hit("cp.liars-apart")
+	case "short-list":
+		// checkpoint lists of DIFFERING LENGTHS: an honest peer with the full true
+		// list, a peer with a correct but short list (length k, possibly empty: it
+		// lags, or is lazy) and a liar forging at an index j >= k, i.e. beyond the
+		// end of the short list - exactly the first index the short list lacks, the
+		// last index of all, or anywhere between.  The liar either serves a whole
+		// self-consistent false filter-header chain from a height inside interval j
+		// (first height, last height = the checkpoint itself, anywhere) or forges the
+		// checkpoint alone.
+		k := r.Intn(nInt)
+		j := k
+		switch r.Intn(4) {
+		case 0:
+			j = nInt - 1
+		case 1:
+			j = k + r.Intn(nInt-k)
+		}
+		f0 = r.Intn(2) * r.Intn(k*interval+1)
+		cpOnly := r.Intn(3) == 0
+		for i, q := range r.Perm(np) {
+			p := q + 1
+			switch i {
+			case 0:
+				vs = append(vs, w.mkview(p, "honest", 0, ""))
+			case 1:
+				v := w.mkview(p, "short", 0, "")
+				v.cps = append([]int{}, v.cps[:k]...)
+				vs = append(vs, v)
+			case 2:
+				if cpOnly {
+					v := w.mkview(p, "cpliar", 0, "")
+					v.cps[j] = w.H(w.variant(w.chain[(j+1)*interval], "junk"), v.cps[j])
+					vs = append(vs, v)
+					break
+				}
+				lie := j*interval + 1 + r.Intn(interval)
+				switch r.Intn(3) {
+				case 0:
+					lie = j*interval + 1
+				case 1:
+					lie = (j + 1) * interval
+				}
+				vs = append(vs, w.mkview(p, "hliar", lie, "omit"))
+			default:
+				v := w.mkview(p, "honest", 0, "")
+				if r.Intn(2) == 0 {
+					v.kind = "short"
+					v.cps = append([]int{}, v.cps[:r.Intn(nInt)]...)
+				}
+				vs = append(vs, v)
+			}
+		}
+		t.Hit(fmt.Sprintf("cp.short-list.k%d.j%d", k, j))
+		if cpOnly {
+			t.Hit("cp.short-list.checkpoint-only")
+		}
 	case "store-disagrees":
 		// (c) the store holds a false chain beyond a checkpoint; all peers agree with each other
 		f0 = interval + 500
@@ -472,12 +531,13 @@ func cpCase(t *tr.W, r *rand.Rand, scenario string) {
 	t.Op(fmt.Sprintf("init %s fs %s", ints(ids), ints(pre[:f0+1])), "- | "+w.dump())
 	w.sanityOp(vs)
 	rounds := 2
-	if scenario == "liars-apart" {
+	retry := scenario == "liars-apart" || scenario == "short-list"
+	if retry {
 		rounds = 4
 	}
 	for round := 0; round < rounds; round++ {
 		cur := vs
-		if scenario == "liars-apart" {
+		if retry {
 			// the retry of cfHandler asks the peers that are still connected
 			cur = nil
 			for _, v := range vs {
@@ -491,7 +551,7 @@ func cpCase(t *tr.W, r *rand.Rand, scenario string) {
 		}
 		good := w.resolveOp(cur, disc)
 		if good == nil {
-			if scenario == "store-disagrees" || scenario == "liars-apart" {
+			if scenario == "store-disagrees" || retry {
 				continue // the retry of cfHandler
 			}
 			break
@@ -500,7 +560,7 @@ func cpCase(t *tr.W, r *rand.Rand, scenario string) {
 			good = good[:nInt]
 		}
 		w.fetchOp(vs, good, round == 1 || r.Intn(4) > 0)
-		if ft, _, _ := w.storeTips(); ft >= len(good)*interval {
+		if ft, _, _ := w.storeTips(); ft >= len(good)*interval && (scenario != "short-list" || ft >= nInt*interval) {
 			break
 		}
 	}
